@@ -6,7 +6,7 @@ import os
 VERIF = os.path.dirname(os.path.dirname(os.path.abspath(__file__)))
 
 # id -> (technique, level text, level note, design ref)
-CORE_NOTE = 'Trusted: harness-owned input/action/output plugins around the real Pipeline, streams, pools, Batcher and RetriableBatcher; action chain limited to a filter and a join-like action; small-scope model (<=4 events, 2 processors, 2 workers); real schedules are sampled (scripted + random), not exhaustive; property monitors evaluated by TLC on every recorded step.'
+CORE_NOTE = 'Trusted: harness-owned input/action/output plugins around the real Pipeline, streams, pools, Batcher and RetriableBatcher; action chain limited to a filter/split action, a selective join-like action and a post-filter; small-scope model (<=4 events, 2 processors, 2 workers); real schedules are sampled (scripted + random), not exhaustive; property monitors evaluated by TLC on every recorded step.'
 
 CHECKS = {
     "C07": ("TLA+ model of a crash-consistent file system + the save protocol of offsetDB.save / offset.Save (deviation switches; residual / "
@@ -29,7 +29,8 @@ CHECKS = {
             "derivations; net/http framing below ServeHTTP and sync.Pool semantics assumed.", "DESIGN.md §6 C11"),
     "C14": ("declarative three-valued TLA+ evaluator of the documented do_if / match_fields semantics + transcription of the code's short-cut "
             "evaluation, model-checked against each other by TLC (named deviation switches); every exported rule built through the real config "
-            "path and compared on every event with doif.Checker.Check, processor.doActions/isMatch (two event orders) and end to end via fd.SetupActions",
+            "path and compared on every event with doif.Checker.Check, processor.doActions/isMatch (two event orders, and at the head of a chain whose last "
+            "action holds a run: ActionChain.tla) and end to end via fd.SetupActions",
             "TLC proves on all rules in scope (every field op x value lists x case flag, regexp family, length/int/timestamp/type leaves x six "
             "comparators, all and/or/not trees to depth 2-3, and/or/and_prefix/or_prefix x exact/list/regexp x invert) x all small events that the "
             "transcribed evaluation equals the documented value outside four named defect classes; the real code must give the documented value on "
@@ -47,7 +48,8 @@ CHECKS = {
             "genuine defects carried as known findings (D5, D12, D15, D16, D17).", "DESIGN.md §6 C15"),
     "C16": ("TLA+ transcription of inMemoryLimiter.isAllowed / getDistrData / rebuildBuckets model-checked by TLC against the declarative per-key, "
             "per-bucket, per-share budget statement (+ 8 spec mutants that must be rejected); every exported history replayed step by step on the "
-            "real inMemoryLimiter and the real Plugin.Do with the statement re-evaluated on the real pass/discard history",
+            "real inMemoryLimiter and the real Plugin.Do with the statement re-evaluated on the real pass/discard history; limiter expiry (Maintain) and "
+            "the concurrent getOrAdd protocol (SpecMap) specified too, the latter raced on 8 real plugin instances",
             "TLC proves on all small-scope histories (1-2 keys, 3-5 events, buckets_count 1-4, limits 0-4, count/size kind, distribution, event times "
             "inside/outside/ahead of the window, clock jumps) that the ring/rotation/re-map/add-then-compare/steal logic never passes more than the "
             "limit or share, never rejects under the limit and decides each key from its own sub-history; all histories are executed on the real "
@@ -73,7 +75,7 @@ CHECKS = {
     "C19": ("TLA+ transcription of the elasticsearch/http out function (per-worker outBuf/begin reuse, Batch.ForEach, recursive sendSplit on 413) "
             "model-checked by TLC against Payload / FramingOK / BodyIs / SplitCovers (spec mutants, strict-versus-deviation pair for D14); every "
             "exported case replayed into the real output plugins (ES, http, splunk, loki, file, kafka, gelf) with adversarial routing values, each "
-            "captured body parsed back into event ids",
+            "captured body parsed back into event ids and per-event routing (topic / index / host / fields)",
             "TLC proves on the small-scope case space (every monotone 413 pattern over <=4 events, <=3 shrinking batches, event kinds, size classes) "
             "that the buffer/begin/split arithmetic delivers exactly the deliverable events once and in order, D14 characterised exactly; the real "
             "plugins' captured bodies must parse and carry the same ids.",
@@ -81,7 +83,7 @@ CHECKS = {
             "JSON validity is structural; clickhouse/postgres/s3/socket/stdout outputs not covered; three known findings.", "DESIGN.md §6 C19"),
     "C20": ("TLA+ transcription of checkInputBytes/In and of Antispammer.IsSpam/Maintenance model-checked by TLC against declarative admission "
             "invariants; every exported size case and every maximal arrival/maintenance history replayed on the real Pipeline.In / Antispammer "
-            "step by step",
+            "step by step (ASCII, multi-byte UTF-8 and binary bytes at the cut position)",
             "TLC proves on the small-scope space (record lengths 0..M+2 x newline x max_event_size x cut_off x mark x decodable x committed; all "
             "arrival/maintenance histories up to 8-11 steps, thresholds 1-3/disabled, unban 4 and 1, exception/rule classes) that the transcription "
             "refuses, cuts, marks, bans and unbans only as the statement allows; every case is executed on the real code and verdict, delivered bytes, "
@@ -92,7 +94,7 @@ CHECKS = {
     "C01": ("TLC model checking of Pipeline.tla (design model, one action per critical section) + TLC-generated schedules (spec-mutant "
             "counterexamples, simulation) replayed into the real pipeline + TLC trace validation of every run against PipelineObs monitors",
             "The commit-frontier invariant is checked exhaustively on the design model (all interleavings of reader, 2 processors, 2 workers, "
-            "discards, retries, dead queue in small scope); the same invariant is then evaluated by TLC on every step of traces recorded from the "
+            "discards, hold/collapse runs with a selective holder, split parents and children, retries, dead queue in small scope); the same invariant is then evaluated by TLC on every step of traces recorded from the "
             "real code under schedules that TLC constructed to distinguish an implementation with each commit-ordering mechanism from one without.",
             CORE_NOTE, "DESIGN.md §6 C01"),
     "C02": ("same machinery as C01; monitors: per-stream commit order, strictly increasing offsets, no duplicate, every accepted event "
@@ -100,26 +102,27 @@ CHECKS = {
             "Order/once/accounted invariants checked exhaustively on Pipeline.tla and evaluated by TLC on every recorded step of the real pipeline "
             "under constructed and random schedules (several sources/streams, hold/collapse runs, refusals).", CORE_NOTE, "DESIGN.md §6 C02"),
     "C05": ("TLC model checking of the pool protocol specs (EventPoolStd: SingleOwner, NoNilHandout, Bounded, ZeroAtEnd; EventPoolLowMem: Bounded, CounterSound) and of Pipeline.tla's pool part; holder-counting stress and size-class sweep on the real pools; pipeline runs at capacities 1..3 (refusals, holds, splits) whose ownership and in-use samples are validated by TLC on every recorded step",
-            'Slot ownership and the capacity bound are proven for both pool protocols in small scope; on the real pools the harness counts events held at one instant under 4 and 16 concurrent readers (capacity 1..3, both kinds), cycles every size-class boundary up to 2^31 (in use back to zero, no slot lost), and the observer checks owned<=capacity, single owner per object, counter in [0,capacity], zero and no waiter at idle on every pipeline trace.',
+            'Slot ownership and the capacity bound are proven for both pool protocols in small scope; on the real pools the harness counts events held at one instant under 4 and 16 concurrent readers (capacity 1..3, both kinds), cycles every size-class boundary up to 2^31 (in use back to zero, no slot lost), and the observer checks owned<=capacity, single owner per object, counter in [0,capacity], zero and no waiter at idle on every pipeline trace; events still held after the quiet period of a run that never reaches idle count as never returned.',
             CORE_NOTE, "DESIGN.md §6 C05"),
-    "C08": ('TLC model checking incl. liveness of BatcherProto.tla (mutex/channel/worker granularity, Stop, heartbeat; send-after-unlock kept as a spec mutant that must reach the closed-channel send) and of Pipeline.tla; the real Batcher driven directly (byte/count bounds, heartbeat-only staleness, regular/child/child-parent mixes, scripted completion orders, Stop racing with 8 adders in a child process) and inside the pipeline; traces validated by TLC (PipelineMon) and model-generated runs checked for conformance (PipelineTrace)',
+    "C08": ('TLC model checking incl. liveness of BatcherProto.tla (mutex/channel/worker granularity, Stop, heartbeat; send-after-unlock kept as a spec mutant that must reach the closed-channel send) and of Pipeline.tla; the real Batcher driven directly (byte/count bounds, heartbeat-only staleness, regular/child/child-parent mixes incl. zero-size children, scripted completion orders, Stop racing with 8 adders in a child process) and inside the pipeline; traces validated by TLC (PipelineMon) and model-generated runs checked for conformance (PipelineTrace)',
             'SizeBound (count, bytes), CommitInSeqOrder, CommitOnlySent, CommitOnce, Staleness, AllCommitted and StopTerminates are proven on BatcherProto; every clause is evaluated by TLC on each step of traces of the real Batcher under schedules where later batches finish first, batches hold only split parents, a non-first batch is given up, and Stop hits concurrent Adds (300/2000 trials).',
             CORE_NOTE, "DESIGN.md §6 C08"),
-    "C09": ('same machinery as C01 with failing sends, retries 0..5, with/without dead queue, split parents/children in given-up batches; monitors: attempts before give-up, lower bound retention*mult^(k-1)/2 on the k-th pause (time stamps), no commit while retrying, one Fail per event, committed by the dead queue alone / error callback once and committed by main once, payload identity of dead-queued events',
+    "C09": ('same machinery as C01 with failing sends, retries 0..5, with/without dead queue, split parents/children in given-up batches; monitors: attempts before give-up, lower bound retention*mult^(k-1)/2 on the k-th pause (time stamps), no commit while retrying, one Fail per event, committed by the dead queue alone / error callback once and committed by main once, payload identity of dead-queued events; plus a plugin-level stage (lib/c09_outputs.py) for the classification of failed requests by the output plugins themselves',
             'Retry/dead-queue routing invariants are checked on Pipeline.tla (all outcome sequences within the failure bound) and evaluated by TLC on traces of the real RetriableBatcher with scripted and random failures, several workers (shared back-off state shows as a pause below its lower bound) and the real Router.',
             CORE_NOTE, "DESIGN.md §6 C09"),
     "C10": ("TLC model checking of KafkaInput.tla (routing x completion orders; spread routing named as deviation) + traces of the real "
-            "kafka Plugin.Commit / pconsumer.consume / franz-go marks in a real spread-mode pipeline validated by TLC (KafkaMon.tla) + packing "
-            "boundary cases replayed on the real assemble/disassemble functions",
+            "kafka Plugin.Commit / pconsumer.consume / franz-go marks in a real spread-mode pipeline validated by TLC (KafkaMon.tla) + the real "
+            "Plugin.Start / Commit / Stop against an in-process Kafka broker (harness-owned, speaks the wire protocol) whose OffsetCommit requests "
+            "TLC judges (BrokerCommit rule) + packing boundary cases replayed on the real assemble/disassemble functions",
             "MarkSafe/MarkOwn/MarkMonotone are checked exhaustively on the design (all routings of <=4-5 records over 2 partitions and 2-3 "
             "processors, all completion orders); the real plugin's marks are read from a real franz-go client after every Commit and each "
             "recorded step is checked by TLC against the same clauses; spread routing violates MarkSafe by design (known finding D10).",
-            "Trusted: franz-go's in-memory mark bookkeeping on a client that never connects; the broker-dependent part of Plugin.Start/Stop is "
-            "not run; actions/output are harness-owned; TLC integers are 32-bit so offsets above 2^31 are checked outside TLC with the spec's formulas.",
+            "Trusted: franz-go's mark bookkeeping; the in-process broker implements only the requests file.d's consumer sends (single member group, "
+            "no rebalance storms); actions/output are harness-owned; TLC integers are 32-bit so offsets above 2^31 are checked outside TLC with the spec's formulas.",
             "DESIGN.md §6 C10"),
     "C03": ("TLC model checking of FileInput.tla (every kill instant, sync/async persistence, all stream assignments; the code's resume rule as "
             "named deviation D3, residual and repaired-rule configs, mechanism switches) + TLC-generated kill/restart histories performed on the "
-            "REAL file input in a child process that is really SIGKILLed and restarted, rotation by rename and truncation families; two-run "
+            "REAL file input in a child process that is really SIGKILLed and restarted, rotation by rename, truncation, recycled-inode and slow-writer (a line written in two pieces across maintenance re-opens and across the kill) families; two-run "
             "histories judged by TLC (FileInputMon.tla)",
             "AtLeastOnce is checked exhaustively on the design for every kill point at the model's granularity; the resume rule's hole (D3) is "
             "reproduced at design level and on the real input, the residual and a repaired rule are proven in small scope, and every mechanism "
@@ -129,10 +132,11 @@ CHECKS = {
             "granularity (the save protocol itself is C07); one file plus rotated predecessors; a line counts as lost after 6 s without progress; "
             "symlinks, lz4, remove_after, offsets_op tail/reset not covered.", "DESIGN.md §6 C03"),
     "C04": ('TLC model checking incl. liveness under fairness of detailed protocol specs (EventPoolLowMem/EventPoolStd: atomics, lock, cond-var, heartbeat; StreamProto: stream/streamer at mutex granularity) and of Pipeline.tla, each mechanism shown necessary by a spec mutant; TLC-constructed windows replayed on the real code (lost wake-up through verif hook gates; put || tryUnblock on a blocked stream); attend / timeout-then-detach / progress runs of the real pipeline validated by TLC',
-            'NoWedge, NoEventLost, ChargedRight and eventual completion are model-checked for both pool protocols, the stream protocol and the pipeline model under weak fairness; the windows TLC constructs are reproduced deterministically on the real pools and streams and progress must resume within a bound; real pipeline runs at capacity 1, single processor, time-out-only flushes, timer-only batch flushes, back-to-back charges of K streams and detach-after-time-out sequences must reach idle with every stream attended.',
+            'NoWedge, NoEventLost, ChargedRight and eventual completion are model-checked for both pool protocols, the stream protocol and the pipeline model under weak fairness; the windows TLC constructs are reproduced deterministically on the real pools and streams and progress must resume within a bound; real pipeline runs at capacity 1, single processor, time-out-only flushes, timer-only batch flushes (also of a batch that holds only a split parent), back-to-back charges of K streams and detach-after-time-out sequences must reach idle with every stream attended.',
             'Trusted: bounded-time is judged by generous wall-clock bounds with heartbeat intervals shortened in-package; Go scheduler fairness; the stream protocol is replayed at the granularity of Pipeline.tla plus the constructed windows, StreamProto itself is design level.', "DESIGN.md §6 C04"),
     "C06": ("TLA+ transcription of the read loop model-checked against a declarative line/offset oracle (TLC, exhaustive "
-            "small scope); every TLC-exported case replayed on the real worker.work and compared",
+            "small scope); every TLC-exported case replayed on the real worker.work and compared, alone and in groups of 2-3 files served by one "
+            "worker goroutine (WorkerTails.tla), and a sample end to end through the real file plugin inside a real pipeline with the size limit",
             "TLC proves on the whole small-scope case space (all contents over {x,\\n} up to the bound x all splits into appends x "
             "all buffer sizes x size limits x cut_off x resume offsets) that the transcribed read loop hands over exactly the "
             "expected (offset, bytes) calls; the real worker.work is then executed on real files for those cases and must produce "
